@@ -317,7 +317,8 @@ class LoaderLoad(Contract):
     callable_by_contract = False
     unbounded = False
     own_bounds = True
-    tags = {"C17": ("C17", "C02"), "C18": ("C18",), "raises": ("C17",), "frame": ("C17", "C19")}
+    tags = {"C17": ("C17", "C02"), "C17.host-os-services-processes": ("C17", "C09"), "C18": ("C18",),
+            "raises": ("C17",), "frame": ("C17", "C19")}
 
     def must_not_return(self, variant):
         return not variant.endswith("|valid")
